@@ -24,6 +24,20 @@ def order_key(clsq, ghostname):
     ORDER_KEYS[clsq] = ghostname
 
 
+def _const_with_classes(v, depth=0):
+    """generated tables: constants, classes and functions nested in tuples / lists / dicts"""
+    import types as _t
+    if isinstance(v, front.CONST_TYPES) or isinstance(v, type) or isinstance(v, _t.FunctionType):
+        return True
+    if depth > 4:
+        return False
+    if isinstance(v, (list, tuple)):
+        return all(_const_with_classes(x, depth + 1) for x in v)
+    if isinstance(v, dict):
+        return all(isinstance(k, front.CONST_TYPES) and _const_with_classes(x, depth + 1) for k, x in v.items())
+    return False
+
+
 PRIM = (Ty.TNone, Ty.TBool, Ty.TInt, Ty.TStr, Ty.TBytes)
 
 
@@ -95,7 +109,10 @@ class ExecExpr(ExecCore):
             return sv
         if isinstance(v, type):
             q = front.cls_qual(v)
-            return SV(VCls(z3.IntVal(front.cls_id(q))), Ty.TCls(q))
+            return SV(VCls(z3.IntVal(front.cls_id(q))), Ty.TCls(q), v, True)
+        import types as _t
+        if isinstance(v, _t.FunctionType):
+            return SV(VNone, Ty.TFunc('%s:%s' % (v.__module__, v.__qualname__)), v, True)
         raise Unsupported('cannot lift %r' % (type(v),))
 
     def global_value(self, modname, name, st):
@@ -137,6 +154,8 @@ class ExecExpr(ExecCore):
                 sv = new_dict(st, items)
                 sv.py, sv.has_py = payload, True
                 return sv
+            if _const_with_classes(payload):
+                return self.lift_py(payload, st)
             raise Unsupported('module-level object %s.%s of type %s has no declared model' % (
                 modname, name, type(payload).__name__))
         return None
@@ -196,12 +215,16 @@ class ExecExpr(ExecCore):
             c = front.cls_obj(ty.name)
             if hasattr(c, attr):
                 v = getattr(c, attr)
-                if front.is_const_data(v) or isinstance(v, type):
+                if front.is_const_data(v) or isinstance(v, type) or _const_with_classes(v):
                     return [(st, self.lift_py(v, st))], []
                 kind, payload = front.classify(v)
                 if kind == 'func':
                     return [(st, SV(VNone, Ty.TFunc(payload)))], []
             raise Unsupported('class attribute %s.%s' % (ty.name, attr))
+        if isinstance(ty, Ty.TInst) and attr == '__class__':
+            # the static class is taken as the exact class: the caller's contract must pin it (requires cls_of(x) == ...)
+            self.oblige(st, CLS(va(base.term)) == front.cls_id(ty.cls), 'exact-class[%s]' % ty.cls.split(':')[1], 'pre-of-callee')
+            return [(st, SV(VCls(z3.IntVal(front.cls_id(ty.cls))), Ty.TCls(ty.cls)))], []
         if isinstance(ty, Ty.TInst):
             ft = field_type(ty.cls, attr)
             if ft is not None:
@@ -852,6 +875,12 @@ class ExecExpr(ExecCore):
                 out.extend(ns)
                 raises.extend(rs)
             return out, raises
+        if isinstance(ty, Ty.TDict) and base.has_py and isinstance(base.py, dict) and key.has_py and \
+                isinstance(key.py, front.CONST_TYPES):
+            # constant table, constant key: decided statically
+            if key.py in base.py:
+                return [(st, self.lift_py(base.py[key.py], st))], []
+            return [], [self.raised(st, 'builtins:KeyError', [key])]
         if isinstance(ty, Ty.TDict):
             a = va(base.term)
             has, no = self.fork(st, st.DK[a][key.term], None)
@@ -945,6 +974,12 @@ class ExecExpr(ExecCore):
 
     def del_item(self, st, base, key):
         ty = Ty.strip_opt(base.ty)
+        if isinstance(ty, Ty.TDict) and base.has_py and isinstance(base.py, dict) and key.has_py and \
+                isinstance(key.py, front.CONST_TYPES):
+            # constant table, constant key: decided statically
+            if key.py in base.py:
+                return [(st, self.lift_py(base.py[key.py], st))], []
+            return [], [self.raised(st, 'builtins:KeyError', [key])]
         if isinstance(ty, Ty.TDict):
             a = va(base.term)
             has, no = self.fork(st, st.DK[a][key.term], None)
